@@ -574,8 +574,13 @@ func VerifNewWorld(op string) (*VerifWorld, string) {
 	cfg.CustomStorage = w.sto
 	cfg.ResumeOnStartup = false
 	cfg.Host = "127.0.0.1"
+	// one port that is free right now (other harness processes run concurrently)
 	cfg.PortBegin = 20000
-	cfg.PortEnd = 60000
+	if ln, err := net.Listen("tcp4", "127.0.0.1:0"); err == nil {
+		cfg.PortBegin = uint16(ln.Addr().(*net.TCPAddr).Port)
+		ln.Close()
+	}
+	cfg.PortEnd = cfg.PortBegin + 1
 	cfg.TrackerStopTimeout = 2 * time.Second
 	cfg.HealthCheckInterval = time.Hour
 	cfg.ResumeWriteInterval = time.Hour
@@ -686,6 +691,18 @@ func (w *VerifWorld) Close() {
 }
 
 var errVerifHang = errors.New("hang")
+
+// autoRelease opens the open/read gates after a command that makes the loop wait for the allocator or
+// verifier goroutine (stop() calls Allocator.Close / Verifier.Close, which block until the worker's
+// current storage call returns). A real storage call always returns; a gate held forever would be an
+// artefact of the harness. The command has already been taken by the loop when this runs, so the
+// ordering "command before worker result" is preserved.
+func (w *VerifWorld) autoRelease() {
+	w.sto.mu.Lock()
+	w.sto.gateOpen, w.sto.gateRead = false, false
+	w.sto.release.Broadcast()
+	w.sto.mu.Unlock()
+}
 
 // call runs a public-API call that hands a command to the loop; false = the loop did not take it in 5 s.
 func (w *VerifWorld) call(f func()) bool {
@@ -963,10 +980,20 @@ func (w *VerifWorld) Op(op string) string {
 		if !w.call(func() { _ = w.tor.Stop() }) {
 			return "hang"
 		}
+		w.autoRelease()
 	case "verify":
 		if !w.call(func() { _ = w.tor.Verify() }) {
 			return "hang"
 		}
+		w.autoRelease()
+	case "diskcheck":
+		// settle first, then compare the storage with the ground truth
+		o := w.observeAfterSettle()
+		v := "bad"
+		if w.VerifDiskMatchesTruth() {
+			v = "ok"
+		}
+		return "disk=" + v + " " + o
 	case "announce":
 		if !w.call(func() { w.tor.Announce() }) {
 			return "hang"
@@ -992,7 +1019,7 @@ func (w *VerifWorld) Op(op string) string {
 	case "mutate":
 		// external change of the files while the torrent is stopped
 		if len(w.t.files) != 0 || w.t.errC != nil {
-			return "skipped:not-stopped"
+			return "skipped:not-stopped " + w.observeAfterSettle()
 		}
 		w.sto.mu.Lock()
 		fname := w.fileName(verifAtoi(m["file"], 0))
@@ -1009,8 +1036,6 @@ func (w *VerifWorld) Op(op string) string {
 				if off < len(f.data) {
 					f.data[off] ^= 0xFF
 				}
-			case "truncate":
-				f.data = f.data[:len(f.data)/2]
 			case "fill":
 				// write the true content (as if another client completed it)
 				w.fillTruth(n, f)
